@@ -423,7 +423,9 @@ func main() {
 			}
 			var crlNetworkErr *verify.CRLUnavailableErr
 			var collateralNetworkErr *trust.AttestationRecreationErr
-			if errors.As(err, &crlNetworkErr) || errors.As(err, &collateralNetworkErr) {
+			// The library returns CRLUnavailableErr by value.
+			var crlNetworkErrValue verify.CRLUnavailableErr
+			if errors.As(err, &crlNetworkErr) || errors.As(err, &crlNetworkErrValue) || errors.As(err, &collateralNetworkErr) {
 				exitCode = exitNetwork
 				return true
 			}
